@@ -159,8 +159,8 @@ def search(ctx, exe):
             sweep.append(core.fmt_case([4000], [[(LOCK, 0), (UNLOCK, 0)]] * 3, sched))
     cases = sweep + cases
     # RT_CATCHALL: every byte of the mutex object is a scheduling point (fields the model does not know included)
-    impl = core.run_sharded(["env", "RT_CATCHALL=1", exe], cases)
-    for c, line in zip(cases, impl):
+    scases, impl = core.run_search(ctx, exe, cases)   # plain schedules first, then with every byte of the object a scheduling point
+    for c, line in zip(scases, impl):
         why = core.safe_monitor(monitor, c, core.parse_trace(line) if line is not None else None, line)
         if why:
             core.report_violation(ctx, "mutex+catchall", c, why, line)
